@@ -7,7 +7,8 @@
 //	simhook.Yield(site) before every statement
 //	go f(x)                      -> simhook.Go(func(){ f(x) }) with arguments evaluated at the go statement
 //	for k, v := range <map>      -> iteration over simhook.MapKeys(m) (ordered key types only)
-//	mu.Lock()/Unlock()/RLock()/RUnlock() on sync.Mutex/RWMutex -> simhook.MutexLock(&mu) ...
+//	mu.Lock()/Unlock()/RLock()/RUnlock() on sync.Mutex/RWMutex (also embedded ones locked through the promoted
+//	method) -> simhook.MutexLock(&mu) ...
 //	pool.Get()/Put(x) on sync.Pool -> simhook.PoolGet(&pool)/PoolPut(&pool, x)
 //	once.Do(f) on sync.Once -> simhook.OnceDo(&once, f)
 //	net.Dial, net.DialTimeout, tls.Dial, (*net.Dialer).Dial, http.Get,
@@ -338,6 +339,38 @@ func namedIn(t types.Type, pkg string, names ...string) (name string, ptr, ok bo
 	return "", false, false
 }
 
+// embeddedMutex reports whether sel is a method of sync.Mutex / sync.RWMutex promoted through embedded fields, and
+// returns the field names that lead from sel.X to the embedded mutex, its type name, and whether that field is a pointer.
+func (in *instr) embeddedMutex(sel *ast.SelectorExpr) (path []string, name string, ptr, ok bool) {
+	s := in.p.TypesInfo.Selections[sel]
+	if s == nil || s.Kind() != types.MethodVal || len(s.Index()) < 2 {
+		return nil, "", false, false
+	}
+	fn, isFn := s.Obj().(*types.Func)
+	if !isFn || fn.Pkg() == nil || fn.Pkg().Path() != "sync" {
+		return nil, "", false, false
+	}
+	t := s.Recv()
+	idx := s.Index()
+	for _, i := range idx[:len(idx)-1] {
+		if p, isPtr := t.(*types.Pointer); isPtr {
+			t = p.Elem()
+		}
+		st, isStruct := t.Underlying().(*types.Struct)
+		if !isStruct || i >= st.NumFields() {
+			return nil, "", false, false
+		}
+		f := st.Field(i)
+		path = append(path, f.Name())
+		t = f.Type()
+	}
+	nm, isPtr, isMutex := namedIn(t, "sync", "Mutex", "RWMutex")
+	if !isMutex {
+		return nil, "", false, false
+	}
+	return path, nm, isPtr, true
+}
+
 func addr(x ast.Expr, ptr bool) ast.Expr {
 	if ptr {
 		return x
@@ -413,6 +446,16 @@ func (in *instr) exprs(n ast.Node) ast.Node {
 					if len(x.Args) == 0 {
 						if nm, ptr, ok := namedIn(in.typeOf(sel.X), "sync", "Mutex", "RWMutex"); ok {
 							recv := in.exprs(sel.X).(ast.Expr)
+							c.Replace(hook(nm+sel.Sel.Name, addr(recv, ptr)))
+							in.used = true
+							return false
+						}
+						// a mutex embedded in a struct and locked through the promoted method: x.Lock() -> hook(&x.<path>.Mutex)
+						if path, nm, ptr, ok := in.embeddedMutex(sel); ok {
+							recv := in.exprs(sel.X).(ast.Expr)
+							for _, f := range path {
+								recv = &ast.SelectorExpr{X: recv, Sel: ast.NewIdent(f)}
+							}
 							c.Replace(hook(nm+sel.Sel.Name, addr(recv, ptr)))
 							in.used = true
 							return false
